@@ -1038,6 +1038,8 @@ def run(ctx) -> None:
                 ctx.unverified("MONTHBRANCH.agree", "rs:precise_diff", str(e), "rust/src/python/helpers.rs")
     ctx.step(_backend_switch, ctx)
     ctx.step(_interval_props, ctx)
+    from . import C05
+    ctx.step(C05._length_tabulate, ctx, True)      # remaining_seconds / microseconds are read from the Duration built in Interval.__new__: its length must be exact
     from ..rules import addduration as AD
     from . import C15
     ctx.step(C15.clamp_dependencies, ctx)
